@@ -41,6 +41,7 @@ class VBM:
         self.derived = self._derived_attrs()
         self.borrowed = self._borrowed_fields()
         self.returns_fresh = {}
+        self.returns_fresh_tuple = {}   # qual -> per-element freshness of a returned tuple
         from .constexec import ConstExec
         self.ce = ConstExec(ctx, tracked)
         from .report import load_json
@@ -245,8 +246,21 @@ class VBM:
                         continue      # x = None placeholder before the construction
                     ok[t.id] = ok.get(t.id, True) and fresh
                 else:
-                    for nm in cfgmod.target_names(t):
-                        ok[nm] = False
+                    # (a, b, n) = self._helper(...): element-wise freshness of a helper that returns a tuple
+                    # of its own constructions
+                    elems = None
+                    if isinstance(t, (ast.Tuple, ast.List)) and isinstance(val, ast.Call) and all(isinstance(x, ast.Name) for x in t.elts):
+                        cs, kind = self.ctx.t._resolve(val, fi)
+                        if kind in ('func', 'method') and cs:
+                            tups = [self.returns_fresh_tuple.get(c.qual) for c in cs]
+                            if all(tp is not None and len(tp) == len(t.elts) for tp in tups):
+                                elems = [all(tp[i] for tp in tups) for i in range(len(t.elts))]
+                    if elems is not None:
+                        for x, fr in zip(t.elts, elems):
+                            ok[x.id] = ok.get(x.id, True) and fr
+                    else:
+                        for nm in cfgmod.target_names(t):
+                            ok[nm] = False
         params = set(p.lstrip('*') for p in fi.params)
         # x = y copies: x is fresh iff all its sources are
         for _ in range(4):
@@ -269,6 +283,12 @@ class VBM:
                 if rets and all(isinstance(r.value, ast.Name) and r.value.id in fl for r in rets):
                     self.returns_fresh[fi.qual] = True
                     changed = True
+                elif rets and all(isinstance(r.value, ast.Tuple) and len(r.value.elts) == len(rets[0].value.elts) for r in rets):
+                    tp = tuple(all(isinstance(r.value.elts[i], ast.Name) and r.value.elts[i].id in fl for r in rets)
+                               for i in range(len(rets[0].value.elts)))
+                    if any(tp) and self.returns_fresh_tuple.get(fi.qual) != tp:
+                        self.returns_fresh_tuple[fi.qual] = tp
+                        changed = True
 
     # ------------------------------------------------------------- analysis
     def _node_writes(self, fi, fresh):
